@@ -322,7 +322,14 @@ def r4_err_disc(c, facts):
             continue
         b, t = es[0]
         sw = fn.mir['blocks'][t['target']]['term']
-        e1 = [P.enum_edges(sw)['1']] if '1' in P.enum_edges(sw) else [] if sw['t'] == 'switch' else []
+        hops = 0
+        cur = t['target']
+        while sw['t'] != 'switch' and 'target' in sw and hops < 4:      # `eval(..).map_err(..)`, `?`: the switch comes a call or two later
+            cur = sw['target']
+            sw = fn.mir['blocks'][cur]['term']
+            hops += 1
+        ee = P.enum_edges(sw) if sw['t'] == 'switch' else {}
+        e1 = [ee['1']] if '1' in ee else []
         if not e1:
             c.skip(R, q, 'unrecognised match on eval result')
             continue
